@@ -876,7 +876,18 @@ func allocFor(fn *ssa.Function, obj types.Object) *ssa.Alloc {
 
 // calleeOrdinal: 1-based position of call instruction `in` among the call
 // sites of fn (in source order) whose source-level callee name is `name`.
+var calleeOrdCache sync.Map // ssa.Instruction -> int
+
 func (e *Engine) calleeOrdinal(fn *ssa.Function, in ssa.Instruction, name string) int {
+	if v, ok := calleeOrdCache.Load(in); ok {
+		return v.(int)
+	}
+	r := e.calleeOrdinal0(fn, in, name)
+	calleeOrdCache.Store(in, r)
+	return r
+}
+
+func (e *Engine) calleeOrdinal0(fn *ssa.Function, in ssa.Instruction, name string) int {
 	type item struct {
 		in  ssa.Instruction
 		pos token.Pos
